@@ -49,6 +49,59 @@ def configuredTypes (exec watch : Option (List WatchEvent)) : List WatchEvent :=
     | some l => withEventTypes (some l)
     | none => withEventTypes none
 
+/-- The loop over the kubernetes bindings of a v1 hook (`HookConfigV1.ConvertAndCheck`): one monitor
+per binding, appended in the order of the bindings; every monitor gets a slice of its own
+(`WithEventTypes` copies). -/
+def convertHookV1 : List (Option (List WatchEvent) × Option (List WatchEvent)) → List (List WatchEvent) →
+    List (List WatchEvent)
+  | [], acc => acc
+  | b :: rest, acc => convertHookV1 rest (acc ++ [configuredTypes b.1 b.2])
+
+/-- Legacy (configVersion v0) names of the event types: the `switch eventName` of
+`HookConfigV0.ConvertAndCheck` (config_v0.go); `none` = the `default:` branch ("event is unsupported"). -/
+def WatchEvent.ofV0Name? : String → Option WatchEvent
+  | "add" => some .added
+  | "update" => some .modified
+  | "delete" => some .deleted
+  | _ => none
+
+/-- The inner loop of the event-type block of `HookConfigV0.ConvertAndCheck`: one `append` per name of
+the binding's `event` list, the first unsupported name aborts. -/
+def convertV0Names : List String → List WatchEvent → Option (List WatchEvent)
+  | [], acc => some acc
+  | n :: rest, acc =>
+    match WatchEvent.ofV0Name? n with
+    | some t => convertV0Names rest (acc ++ [t])
+    | none => none
+
+/-- One v0 binding: a fresh, non-nil slice (`eventTypes := []WatchEventType{}` — so an absent or
+empty `event` key gives the EMPTY list, never the default), filled by the loop, handed to
+`WithEventTypes` (which copies it). -/
+def configuredTypesV0 (names : List String) : Option (List WatchEvent) :=
+  match convertV0Names names [] with
+  | some l => some (withEventTypes (some l))
+  | none => none
+
+/-- The loop over `cv0.OnKubernetesEvent`: one monitor per binding, appended in order; an
+unsupported event name in any binding makes the whole hook configuration invalid. -/
+def convertHookV0 : List (List String) → List (List WatchEvent) → Option (List (List WatchEvent))
+  | [], acc => some acc
+  | b :: rest, acc =>
+    match configuredTypesV0 b with
+    | some m => convertHookV0 rest (acc ++ [m])
+    | none => none
+
+/-- A variant that is NOT the code (witness only): the converted names go into one buffer of three
+slots that is re-sliced to length 0 for every binding, and `WithEventTypes` keeps the slice it is
+given. Every monitor is then a view `(buffer, length)`; what binding `k` shows at the end is the
+first `length k` slots of the buffer as the LAST binding that reached them left them. -/
+def sharedBufferWrite (buf : List WatchEvent) (l : List WatchEvent) : List WatchEvent :=
+  l ++ buf.drop l.length
+
+def convertHookV0Shared (bs : List (List WatchEvent)) : List (List WatchEvent) :=
+  let buf := bs.foldl sharedBufferWrite []
+  bs.map (fun l => buf.take l.length)
+
 /-- The part of `MonitorConfig` the decision depends on. -/
 structure Cfg where
   types : List WatchEvent := defaultTypes   -- EventTypes (executeHookOnEvent)
@@ -196,6 +249,13 @@ def listed (exec watch : Option (List WatchEvent)) (ev : WatchEvent) : Bool :=
   | none, some l => decide (ev ∈ l)
   | none, none => true
 
+/-- The same clause for a legacy (configVersion v0) binding, whose key is `event` and whose names are
+`add`, `update`, `delete`: the change type is listed iff its legacy name is in the list. -/
+def v0Name : WatchEvent → String
+  | .added => "add" | .modified => "update" | .deleted => "delete"
+
+def listedV0 (names : List String) (ev : WatchEvent) : Bool := decide (v0Name ev ∈ names)
+
 def run (cfg : Cfg) : Known → List Change → Known × List Bool
   | known, [] => (known, [])
   | known, (ev, id, obj) :: rest =>
@@ -204,5 +264,42 @@ def run (cfg : Cfg) : Known → List Change → Known × List Bool
     (rr.1, r.2 :: rr.2)
 
 end Spec
+
+/-! ## Aliasing: the objects of the shared informer's store
+
+client-go keeps ONE object per resource in the store of a shared informer and hands its address to
+every handler registered on it — every binding of every hook with the same kind, namespace and
+selectors — and hands the SAME address again on a resync or relist of an unchanged object. With
+`keepFullObjectsInMemory` the cache entry keeps that address (`ObjectAndFilterResult.Object`).
+`getCachedObjects` returns copies of the entry *structs*: their `Object` fields still point into the
+store. -/
+
+/-- The store: address → object. -/
+abbrev Heap := List (Nat × J)
+
+/-- `getCachedObjects` seen from the store: `addrs` are the addresses held by the entries it copies,
+`touch` is what it does to an object through such an address. The code does nothing (`touch = id`);
+the parameter is there to say what would happen otherwise. -/
+def snapshotHeap (touch : J → J) (addrs : List Nat) (heap : Heap) : Heap :=
+  addrs.foldl (fun h a => match aget a h with
+    | some o => aset a (touch o) h
+    | none => h) heap
+
+/-- The shared informer delivers the object at address `a` to one handler. -/
+def handleAt {C : Type} [DecidableEq C] (cfg : Cfg) (cks : J → C) (heap : Heap) (cache : Cache C)
+    (ev : WatchEvent) (id : Nat) (a : Nat) : Cache C × Option (Event C) :=
+  match aget a heap with
+  | some o => handle cfg cks cache ev id o
+  | none => (cache, none)
+
+/-- removing one top-level key of `metadata` (what `SetManagedFields(nil)` does to an unstructured object) -/
+def stripMeta (key : String) : J → J
+  | .obj kvs => .obj (kvs.map (fun kv =>
+      if kv.1 = "metadata" then
+        match kv.2 with
+        | .obj ms => (kv.1, J.obj (ms.filter (fun m => m.1 ≠ key)))
+        | v => (kv.1, v)
+      else kv))
+  | v => v
 
 end ShellOp.Trigger
